@@ -55,15 +55,9 @@ class ConfigDict(ComposedNode, dict):
         self._del(name)
 
     def __setitem__(self, name, value):
-        if isinstance(name, str) and name.startswith('_'):
-            return dict.__setitem__(self, name, value)
-
         return self._set(name, value)
 
     def __delitem__(self, name):
-        if isinstance(name, str) and name.startswith('_'):
-            return dict.__delitem__(self, name)
-
         self._del(name)
 
     def __contains__(self, name):
